@@ -133,6 +133,9 @@ def run(tier='quick'):
         for c in calls:
             getattr(chk, c[0])(*c[1], **c[2])
     chk.extra['representative_versions'] = ['%s %s' % (g, order[v]) for g, v in reps]
+    R6 = chk.rule('R6', 'the util helpers that lift a conversion over std::optional between nullable columns and snapshot fields yield a value exactly when given one (no stored value is read back as "not set")', floor=4)
+    from .. import rowrules as _rr
+    _rr.optional_lifts(prog, chk, R6)
     return chk.finish('statement-level analysis of the 1.x storage layer and the 2.x track table; value-flow '
                       'interpretation (sa/valueflow.py) of snapshot(), update() and create_track() of both '
                       'generations with every repository callee inlined down to the SQL statements, once per '
